@@ -245,6 +245,37 @@ pub fn new_decoder(k: BufKind) -> Box<dyn DynDecoder> {
     dispatch_buf(k, NewDecoder)
 }
 
+struct NewDecoderFromBuf;
+impl CapVisitor for NewDecoderFromBuf {
+    type Out = Box<dyn DynDecoder>;
+    fn visit<B: Buffer + BuilderFor + 'static>(self) -> Self::Out {
+        // an existing buffer that still holds stale content (as much as fits, at most 5 bytes)
+        let mut b: B = Default::default();
+        for i in 0..5u8 {
+            if b.push(0xE0 | i).is_err() {
+                break;
+            }
+        }
+        Box::new(Decoder::<B>::from_buf(b))
+    }
+}
+
+/// `Decoder::from_buf` over a buffer that still contains stale bytes
+pub fn new_decoder_from_buf(k: BufKind) -> Box<dyn DynDecoder> {
+    dispatch_buf(k, NewDecoderFromBuf)
+}
+
+/// F1 on a decoder constructed with `Decoder::from_buf(stale buffer)`
+pub fn run_f1_from_buf(k: BufKind, s: &[u8]) -> Log {
+    let mut d = new_decoder_from_buf(k);
+    let mut log = Log::new();
+    feed(d.as_mut(), s, 0, &mut log);
+    if let Some(e) = d.finalize() {
+        log.push((s.len(), TEv::Err(e)));
+    }
+    log
+}
+
 /// Feeds `s` to `d`, appending position-stamped events (positions offset by `base`).
 pub fn feed(d: &mut dyn DynDecoder, s: &[u8], base: usize, log: &mut Log) {
     for (i, b) in s.iter().enumerate() {
